@@ -221,6 +221,7 @@ def register(reg):
     register_frames(reg)
     register_local_frames(reg)
     register_orientation_algebra(reg)
+    register_fields_and_surfaces(reg)
 
 
 def _vec_contract(reg, method, params, post, replay, key=None, raises=(), requires=(), setup=None):
@@ -2229,3 +2230,472 @@ def register_orientation_algebra(reg):
 
     _simple(reg, f"{OR}.__add__", setup_add, post_add, replay_add(False))
     _simple(reg, f"{OR}.__radd__", setup_add, post_radd, replay_add(True))
+
+
+# =================================================================================================
+# 6. vector fields: following / follow / relative to <field>;  on <surface>;  default heading of an oriented point
+
+FIELD = z3.Function("field.orientation_at", G.RS, G.RS, G.RS, G.ROT)  # an arbitrary orientation-valued vector field
+
+
+def make_field(I, name="field", fn=None, **fields):
+    """A VectorField (real class) whose value function is the abstract field `fn` (default FIELD)."""
+    fn = FIELD if fn is None else fn
+    f = PObj(repo_class(f"{V}:VectorField"), tag=name)
+    f.asked = []
+
+    def value(pos):
+        f.asked.append(pos)
+        return make_orientation(I, fn(*[z3.simplify(c) for c in co(pos)]))
+
+    f.fields.update(name=name, value=BuiltinFn(f"{name}.value", value), valueType=repo_class(f"{V}:Orientation"), minSteps=4, defaultStepSize=5)
+    f.fields.update(fields)
+    return f
+
+
+def register_fields_and_surfaces(reg):
+    install_veneer_stubs(reg)
+
+    # ---------------------------------------------------------------- VectorField.followFrom: forward Euler steps along the field
+    # P(i) = point after i steps:  P(0) = start,  P(i+1) = P(i) + R(field(P(i))) * (0, h, 0),  h = dist / number of steps
+    PATH = [z3.Function(f"euler_path.{c}", z3.IntSort(), G.RS) for c in "xyz"]
+    HOLD = {}
+
+    def path_axiom(eng, h):
+        i = z3.Int("i!path")
+        p = [f(i) for f in PATH]
+        nxt = [a + b for a, b in zip(p, apply3(FIELD(*p), (z3.RealVal(0), h, z3.RealVal(0))))]
+        eng.add_axiom("S-followFrom.euler_path_step (definition of the specification function P(i))", z3.ForAll([i], z3.Implies(i >= 0, z3.And(*[f(i + 1) == n for f, n in zip(PATH, nxt)])), patterns=[PATH[0](i + 1), PATH[1](i + 1), PATH[2](i + 1)]))
+
+    def inv_on_path(ctx):
+        eng = ctx.eng
+        pos, i = ctx["pos"], ctx["_i"]
+        step = co(ctx["step"])
+        if "h" not in HOLD:
+            HOLD["h"] = step[1]
+            path_axiom(eng, step[1])
+        iz = rz(i) if not isinstance(i, int) else z3.IntVal(i)
+        iz = z3.ToInt(iz) if z3.is_real(iz) else iz
+        # the step equation of the specification function at this index (an instance of its definition)
+        prev = [f(iz - 1) for f in PATH]
+        eng.assume(z3.Implies(iz >= 1, z3.And(*[f(iz) == a + b for f, a, b in zip(PATH, prev, apply3(FIELD(*prev), (z3.RealVal(0), step[1], z3.RealVal(0))))])))
+        return SV(z3.And(step[0] == 0, step[2] == 0, *[c == f(iz) for c, f in zip(co(pos), PATH)]))
+
+    def setup_follow(I, env):
+        eng = I.eng
+        HOLD.clear()
+        G.use(eng, *ROT_AXIOMS)
+        start = input_vector(eng, "pos", I)
+        eng.assume(z3.And(*[f(0) == c for f, c in zip(PATH, co(start))]))
+        dist = input_real(eng, "dist")
+        eng.assume(rz(dist) > 0)
+        minSteps = eng.fresh_int("minSteps")
+        eng.assume(compare(">=", minSteps, 1))
+        eng.input_syms.append(("minSteps", C.Int(), minSteps))
+        mode = ["default step size", "given step size", "given steps"][eng.choose(3, "arguments")]
+        field = make_field(I, minSteps=minSteps, defaultStepSize=5)
+        steps = stepSize = None
+        size = 5
+        if mode == "given step size":
+            size = stepSize = [0.5, 2][eng.choose(2, "stepSize")]
+        if mode == "given steps":
+            steps = eng.fresh_int("steps")
+            eng.assume(compare(">=", steps, 1))
+            eng.input_syms.append(("steps", C.Int(), steps))
+        env.vars.update(self=field, pos=start, dist=dist, steps=steps, stepSize=stepSize, _mode=mode, _size=size, _min=minSteps)
+        eng.input_syms.append(("case", C.Const(None), f"{mode}/{size}"))
+
+    def post_follow(I, env, outcome):
+        eng = I.eng
+        if outcome[0] != "return":
+            return
+        name = "vectors.VectorField.followFrom"
+        chk = lambda clause, goal: eng.check(f"{name}#ensures.{clause}", goal)
+        res, mode, dist = outcome[1], env.vars["_mode"], rz(env.vars["dist"])
+        n = env.vars["_n_final"] if "_n_final" in env.vars else None
+        fr = HOLD.get("n")
+        chk("returns_a_vector", is_vector(res))
+        if fr is None or not is_vector(res):
+            chk("takes_at_least_one_step", False)
+            return
+        n = tonum_int(fr)
+        if mode == "given steps":
+            chk("takes_the_requested_number_of_steps", n == tonum_int(env.vars["steps"]))
+        else:
+            size, m = z3.RealVal(str(env.vars["_size"])), tonum_int(env.vars["_min"])
+            chk("takes_at_least_minSteps_steps", n >= m)
+            chk("no_step_is_longer_than_the_step_size", z3.ToReal(n) * size >= dist)
+            chk("takes_no_more_steps_than_needed", z3.Or(n == m, z3.ToReal(n - 1) * size < dist))
+        chk("steps_are_equal_and_add_up_to_the_distance", HOLD["h"] * z3.ToReal(n) == dist)
+        chk("end_point_is_the_forward_euler_path_after_n_steps", eq3(co(res), [f(n) for f in PATH]))
+
+    def tonum_int(v):
+        e = toz3(v) if not isinstance(v, z3.ExprRef) else v
+        return z3.ToInt(e) if z3.is_real(e) else e
+
+    def loop_exit_hook(ctx):
+        """invariant evaluated at every cut point: remembers the symbolic number of steps of the loop"""
+        HOLD["n"] = ctx["steps"]
+        return True
+
+    reg.add(
+        C.Contract(
+            f"{V}:VectorField.followFrom",
+            params={},
+            setup=lambda I, env: (WORLD.clear(), setup_follow(I, env))[1],
+            post=post_follow,
+            inline_all=True,
+            loops={1: dict(invariants={"position_is_on_the_euler_path": inv_on_path, "_steps": loop_exit_hook}, modifies={"pos": VectorT(), "rot": None})},
+            replay=replay_follow_from,
+            properties=("C07",),
+        )
+    )
+
+    # ---------------------------------------------------------------- following F [from X] for D  /  follow F from X for D
+    def setup_following(which):
+        def setup(I, env):
+            eng = I.eng
+            WORLD.clear()
+            field = make_field(I)
+            end = VectorT().fresh(eng, "end_point", I)
+            calls = []
+            field.fields["followFrom"] = BuiltinFn("followFrom", lambda pos, dist, **kw: (calls.append((pos, dist, kw)), end)[1])
+            dist = input_real(eng, "dist")
+            if which == "Following" and eng.choose(2, "from?") == 1:
+                ego = make_ego(I)
+                start, fromPt = ego.fields["position"], None
+            else:
+                start = fromPt = input_vector(eng, "from", I)
+            if which == "Following":
+                env.vars.update(field=field, dist=dist, fromPt=fromPt)
+            else:
+                env.vars.update(F=field, X=fromPt, D=dist)
+            env.vars.update(_field=field, _end=end, _calls=calls, _start=start, _dist=dist)
+
+        return setup
+
+    def post_following(which):
+        def post(I, env, res, chk):
+            field, end, calls = env.vars["_field"], env.vars["_end"], env.vars["_calls"]
+            chk("follows_the_field_once_from_the_start_point_for_the_distance", len(calls) == 1 and calls[0][0] is env.vars["_start"] and calls[0][1] is env.vars["_dist"] and not calls[0][2])
+            want_rot = FIELD(*[z3.simplify(c) for c in co(end)])
+            if which == "Following":
+                chk("specifies_position_1_and_parentOrientation_3", priorities_are(res.fields["priorities"], dict(position=1, parentOrientation=3)))
+                vals = res.fields["value"]
+                pos, ori = pd(vals, "position"), pd(vals, "parentOrientation")
+            else:
+                chk("is_an_oriented_point", class_name(res) == "OrientedPoint")
+                pos, ori = res.fields.get("position"), res.fields.get("orientation")
+            chk("position_is_the_end_point_of_the_path", pos is end)
+            chk("orientation_is_the_field_at_the_end_point", is_orientation(ori) and rot(ori) == want_rot)
+
+        return post
+
+    def replay_following(which):
+        def replay(inputs, clause):
+            import numpy as np
+
+            import scenic.syntax.veneer as ven
+            from scenic.core.vectors import Orientation, Vector, VectorField
+
+            vf = VectorField("f", lambda pos: Orientation.fromEuler(0.3 * pos[0], 0.1 * pos[1], 0.0))
+            start, d = _f3(inputs, "from", inputs.get("ego.position", [1, 2, 0])), _clamp(inputs.get("dist", 7.0), 0.1, 50)
+            want = vf.followFrom(Vector(*start), d)
+            if which == "Following":
+                val = _with_ego(None, lambda: ven.Following(vf, d, Vector(*start))).value
+                pos, ori = val["position"], val["parentOrientation"]
+            else:
+                r = ven.Follow(vf, Vector(*start), d)
+                pos, ori = r.position, r.orientation
+            if not all(_close(a, b) for a, b in zip(pos, want)) or not ori.approxEq(vf[want]):
+                return f"{which} from {start} for {d}: position {pos} orientation {ori}, expected {want} and the field orientation there {vf[want]}"
+            return None
+
+        return replay
+
+    _simple(reg, f"{VEN}:Following", setup_following("Following"), post_following("Following"), replay_following("Following"))
+    _simple(reg, f"{VEN}:Follow", setup_following("Follow"), post_following("Follow"), replay_following("Follow"))
+
+    # ---------------------------------------------------------------- X relative to Y with vector fields
+    FIELD2 = z3.Function("field2.orientation_at", G.RS, G.RS, G.RS, G.ROT)
+    FCASES = ["field/field", "field/heading", "heading/field", "field/orientation", "orientation/field"]
+
+    def setup_rel_field(I, env):
+        eng = I.eng
+        case = FCASES[eng.choose(len(FCASES), "forms")]
+
+        def mk(kind, nm, fn):
+            if kind == "field":
+                return make_field(I, nm, fn)
+            if kind == "heading":
+                return input_real(eng, nm)
+            t = OrientationT()
+            o = t.fresh(eng, nm, I)
+            eng.input_syms.append((nm, t, o))
+            return o
+
+        kx, ky = case.split("/")
+        env.vars.update(X=mk(kx, "X", FIELD), Y=mk(ky, "Y", FIELD2), _case=case, _ctx=make_context(I))
+        eng.input_syms.append(("case", C.Const(None), case))
+
+    def post_rel_field(I, env, res, chk):
+        G.use(I.eng, "rot.yaw")
+        ctx, X, Y = env.vars["_ctx"], env.vars["X"], env.vars["Y"]
+        kx, ky = env.vars["_case"].split("/")
+        chk("is_a_value_depending_on_the_position_of_the_object", isinstance(res, PObj) and res.cls == "DelayedArgument" and set(res.fields["_requiredProperties"]) == {"position"})
+        if not (isinstance(res, PObj) and res.cls == "DelayedArgument"):
+            return
+        val = call_real(I, res.fields["value"], [ctx])
+        p = [z3.simplify(c) for c in co(ctx.fields["position"])]
+
+        def at(kind, v, fn):
+            return fn(*p) if kind == "field" else EULER(rz(v), 0, 0) if kind == "heading" else rot(v)
+
+        chk("fields_are_evaluated_at_the_position_of_the_object", all(all(a is ctx.fields["position"] or eq_vec(a, ctx.fields["position"]) for a in f.asked) and len(f.asked) >= 1 for f, k in ((X, kx), (Y, ky)) if k == "field"))
+        # "the orientation obtained by starting in the second direction and then rotating according to the first"
+        chk("starts_in_Y_and_rotates_according_to_X", is_orientation(val) and rot(val) == MUL(at(ky, Y, FIELD2), at(kx, X, FIELD)))
+
+    def eq_vec(a, b):
+        return is_vector(a) and is_vector(b) and all(x is y or (isinstance(x, SV) and isinstance(y, SV) and x.e.eq(y.e)) for x, y in zip(a.fields["coordinates"], b.fields["coordinates"]))
+
+    def replay_rel_field(inputs, clause):
+        import types
+
+        import scenic.syntax.veneer as ven
+        from scenic.core.lazy_eval import valueInContext
+        from scenic.core.vectors import Orientation, Vector, VectorField
+
+        kx, ky = inputs.get("case", "field/field").split("/")
+        f1 = VectorField("f1", lambda pos: Orientation.fromEuler(0.3 * pos[0], 0.2, 0.1 * pos[2]))
+        f2 = VectorField("f2", lambda pos: Orientation.fromEuler(0.5, 0.1 * pos[1], -0.2))
+        p = Vector(*_f3(inputs, "new.position", [1, 2, 3]))
+        mk = lambda k, f, nm: f if k == "field" else _clamp(inputs.get(nm, 0.4), -6, 6) if k == "heading" else Orientation.fromEuler(0.7, 0.4, -0.3)
+        X, Y = mk(kx, f1, "X"), mk(ky, f2, "Y")
+        from scenic.core.utils import DefaultIdentityDict
+
+        r = valueInContext(ven.RelativeTo(X, Y), types.SimpleNamespace(position=p, _evaluated=DefaultIdentityDict()))
+        at = lambda k, v: v[p] if k == "field" else Orientation.fromEuler(v, 0, 0) if k == "heading" else v
+        want = Orientation(at(ky, Y).getRotation() * at(kx, X).getRotation())
+        if not r.approxEq(want):
+            return f"({kx}) relative to ({ky}) at {p}: {r}, expected {want}"
+        return None
+
+    _simple(reg, f"{VEN}:RelativeTo", setup_rel_field, post_rel_field, replay_rel_field, key="[fields]")
+
+    # ---------------------------------------------------------------- on <region | object | vector>
+    ONCASES = ["region", "oriented region", "object", "vector"]
+
+    def setup_on(I, env):
+        eng = I.eng
+        case = ONCASES[eng.choose(len(ONCASES), "target")]
+        modifying = case != "vector" and eng.choose(2, "modifying") == 1
+        projected = VectorT().fresh(eng, "projected", I)
+        sampled = VectorT().fresh(eng, "point_in_region", I)
+        WORLD.update(sampled=sampled)
+        calls = []
+        if case == "vector":
+            thing = region = input_vector(eng, "target", I)
+        else:
+            region = PObj(repo_class("scenic.core.regions:Region"), tag="region")
+            miss = eng.choose(2, "projection misses") == 1 if modifying else False
+            region.fields.update(
+                orientation=make_field(I, "preferred") if case == "oriented region" else None,
+                projectVector=BuiltinFn("projectVector", lambda pos, onDirection=None: (calls.append((pos, onDirection)), None if miss else projected)[1]),
+                _needsSampling=False, _needsLazyEval=False, _isLazy=False,
+            )  # fmt: skip
+            thing = region
+            if case == "object":
+                thing = make_point(I, "X", "Object")
+                thing.fields["onSurface"] = region
+        ctx = PObj(repo_class(f"{OT}:Object"), tag="new")
+        ct = input_real(eng, "new.contactTolerance", lo=0)
+        ctx.fields.update(contactTolerance=ct, baseOffset=input_vector(eng, "new.baseOffset", I), onDirection=input_vector(eng, "new.onDirection", I))
+        if modifying:
+            ctx.fields["position"] = input_vector(eng, "new.position", I)
+        env.vars.update(thing=thing, _case=case, _mod=modifying, _region=region, _ctx=ctx, _calls=calls, _projected=projected, _sampled=sampled)
+        eng.input_syms.append(("case", C.Const(None), f"{case}/{'modifying' if modifying else 'specifying'}"))
+
+    def post_on(I, env, outcome):
+        eng = I.eng
+        name = "veneer.On"
+        chk = lambda clause, goal: eng.check(f"{name}#ensures.{clause}", goal)
+        if outcome[0] != "return":
+            return
+        spec, case, mod, region, ctx = outcome[1], env.vars["_case"], env.vars["_mod"], env.vars["_region"], env.vars["_ctx"]
+        chk("is_a_modifying_specifier_for_position", class_name(spec) == "ModifyingSpecifier" and set(I.iterate(spec.fields["modifiable_props"])) == {"position"})
+        chk("priorities_position_1_and_parentOrientation_2_iff_the_region_has_a_preferred_orientation", priorities_are(spec.fields["priorities"], dict(position=1, parentOrientation=2) if case == "oriented region" else dict(position=1)))
+        chk("depends_on_onDirection_baseOffset_contactTolerance", set(spec.fields["requiredProperties"]) == {"onDirection", "baseOffset", "contactTolerance"})
+        try:
+            vals = spec_value(I, spec, ctx)
+        except Exception as e:
+            from pyvc.interp import SymRaise
+
+            if isinstance(e, SymRaise):
+                nm = getattr(e.exc.cls, "name", getattr(e.exc.cls, "__name__", ""))
+                calls = env.vars["_calls"]
+                chk("rejects_only_when_the_projection_misses_the_surface", nm == "RejectionException" and mod and len(calls) == 1)
+                return
+            raise
+        calls = env.vars["_calls"]
+        if mod:
+            chk("projects_the_current_position_along_onDirection", len(calls) == 1 and calls[0][0] is ctx.fields["position"] and calls[0][1] is ctx.fields["onDirection"])
+            base = env.vars["_projected"]
+        elif case == "vector":
+            base = region
+        else:
+            base = env.vars["_sampled"]
+        off = [a - b for a, b in zip((z3.RealVal(0), z3.RealVal(0), rz(ctx.fields["contactTolerance"]) / 2), co(ctx.fields["baseOffset"]))]
+        if case == "oriented region":
+            R = FIELD(*[z3.simplify(c) for c in co(base)])
+            po = pd(vals, "parentOrientation")
+            chk("parentOrientation_is_the_preferred_orientation_at_the_contact_point", is_orientation(po) and rot(po) == R)
+            off = apply3(R, off)
+        else:
+            chk("no_parentOrientation_without_a_preferred_orientation", not vals.has("parentOrientation"))
+        # the base of the object (position + baseOffset in its frame) sits half a contact tolerance above the contact point
+        chk("base_of_the_object_is_half_a_contact_tolerance_above_the_contact_point", eq3(co(pd(vals, "position")), [a + b for a, b in zip(co(base), off)]))
+
+    def uniform_point_in(I, region, tag=None):
+        return WORLD["sampled"]
+
+    reg.models["scenic.core.regions:Region.uniformPointIn"] = uniform_point_in
+    reg.trust("Region.uniformPointIn (geometry_ops)", "stub: an arbitrary (already sampled) point of the region; the distribution is C03's concern")
+    reg.add(C.Contract(f"{VEN}:On", params={}, setup=lambda I, env: (WORLD.clear(), setup_on(I, env))[1], post=post_on, inline_all=True, replay=replay_on, raises=[C.Raises("RejectionException", mode="may")], properties=("C07",)))
+
+    # ---------------------------------------------------------------- default orientation / heading of an OrientedPoint
+    def property_default(I, prop):
+        """the PropertyDefault object written in OrientedPoint._scenic_properties (real class body, evaluated by the interpreter)"""
+        import ast
+
+        from pyvc import extract
+        from pyvc.interp import Env
+
+        m = extract.get_module(OT)
+        cls = m.top["OrientedPoint"]
+        for node in cls.body:
+            if isinstance(node, ast.Assign) and any(isinstance(t, ast.Name) and t.id == "_scenic_properties" for t in node.targets):
+                for k, v in zip(node.value.keys, node.value.values):
+                    if isinstance(k, ast.Constant) and k.value == prop:
+                        return I.eval(v, Env(m))
+        raise PyvcError(f"OrientedPoint._scenic_properties[{prop!r}] not found: contract needs updating")
+
+    def property_default_ctor(I, cls, args, kwargs):
+        o = PObj(cls)
+        call_real(I, I.find_method(cls, "__init__"), [o] + list(args), kwargs)
+        return o
+
+    reg.constructors["scenic.core.specifiers:PropertyDefault"] = property_default_ctor
+
+    def make_default_contract(prop):
+        name = f"object_types.OrientedPoint.default[{prop}]"
+
+        def setup(I, env):
+            eng = I.eng
+            WORLD.clear()
+            ctx = make_context(I)
+            for a in ("yaw", "pitch", "roll"):
+                ctx.fields[a] = input_real(eng, f"new.{a}")
+            Gt = MUL(rot(ctx.fields["parentOrientation"]), EULER(*[rz(ctx.fields[a]) for a in ("yaw", "pitch", "roll")]))
+            if prop == "heading":
+                ctx.fields["orientation"] = make_orientation(I, Gt)
+            env.vars.update(self=property_default(I, prop), prop=prop, overriddenDefs=(), _ctx=ctx, _G=Gt)
+
+        def post(I, env, outcome):
+            eng = I.eng
+            if outcome[0] != "return":
+                return
+            chk = lambda clause, goal: eng.check(f"{name}#ensures.{clause}", goal)
+            spec, ctx, Gt = outcome[1], env.vars["_ctx"], env.vars["_G"]
+            chk("is_a_default_with_the_lowest_priority", priorities_are(spec.fields["priorities"], {prop: -1}))
+            vals = spec.fields["value"]
+            v = spec_value(I, PObj("x", fields=dict(value=pd(vals, prop))), ctx)
+            if prop == "orientation":
+                chk("depends_on_yaw_pitch_roll_and_parentOrientation", set(pd(vals, prop).fields["_requiredProperties"]) == {"yaw", "pitch", "roll", "parentOrientation"})
+                chk("orientation_is_the_parent_orientation_composed_with_the_local_euler_angles", is_orientation(v) and rot(v) == Gt)
+            else:
+                # heading = yaw of the orientation in the GLOBAL frame: some global pitch/roll complete it to the orientation
+                h = rz(v)
+                p, r = rz(ctx.fields["pitch"]), rz(ctx.fields["roll"])
+                chk("heading_is_the_yaw_of_the_global_orientation", z3.Or(EULER(h, EUL[1](Gt), EUL[2](Gt)) == Gt, z3.And(rot(ctx.fields["parentOrientation"]) == IDENT, EULER(h, p, r) == Gt)))
+
+        def replay(inputs, clause):
+            from scenic.core.vectors import Orientation
+
+            y, p, r = (_clamp(inputs.get(f"new.{a}", d), -3, 3) for a, d in (("yaw", 0.5), ("pitch", 0.2), ("roll", -0.1)))
+            for pe in catalogue(clause):
+                o = _real_oriented_point([1, 2, 3], pe)
+                from scenic.core.object_types import OrientedPoint
+                from scenic.core.vectors import Vector
+
+                o = OrientedPoint._with(position=Vector(1, 2, 3), parentOrientation=Orientation.fromEuler(*pe), yaw=y, pitch=p, roll=r)
+                want = Orientation.fromEuler(*pe) * Orientation.fromEuler(y, p, r)
+                if not o.orientation.approxEq(want):
+                    return f"OrientedPoint with parentOrientation {pe}, yaw/pitch/roll {(y, p, r)}: orientation {o.orientation}, expected {want}"
+                if not _angle_close(o.heading, want.yaw, 1e-6):
+                    return f"OrientedPoint with parentOrientation {pe}, yaw/pitch/roll {(y, p, r)}: heading {o.heading}, but the yaw of its global orientation is {want.yaw}"
+            return None
+
+        reg.add(
+            C.Contract(f"scenic.core.specifiers:PropertyDefault.resolveFor", params={}, setup=setup, post=post, inline_all=True, replay=replay, properties=("C07",)),
+            key=f"scenic.core.specifiers:PropertyDefault.resolveFor[OrientedPoint.{prop}]",
+        )
+
+    make_default_contract("orientation")
+    make_default_contract("heading")
+
+
+def replay_follow_from(inputs, clause):
+    """Real VectorField.followFrom against a plain re-implementation of the documented forward-Euler construction."""
+    import numpy as np
+
+    from scenic.core.vectors import Orientation, Vector, VectorField
+
+    mode, size = (inputs.get("case", "default step size/5").split("/") + ["5"])[:2]
+    size = float(size)
+    m = int(_clamp(inputs.get("minSteps", 4), 1, 12))
+    fieldfn = lambda pos: Orientation.fromEuler(0.2 * pos[0] + 0.1, 0.05 * pos[1], 0.0)
+    start = _f3(inputs, "pos", [1, 2, 0])
+    start = [_clamp(c, -20, 20) for c in start]
+    for dist in (_clamp(inputs.get("dist", 23.0), 0.1, 60), 23.0, 7.3):
+        vf = VectorField("f", fieldfn, minSteps=m, defaultStepSize=5)
+        if mode == "given steps":
+            n = int(_clamp(inputs.get("steps", 3), 1, 30))
+            got = vf.followFrom(Vector(*start), dist, steps=n)
+        elif mode == "given step size":
+            n = max(m, math.ceil(dist / size))
+            got = vf.followFrom(Vector(*start), dist, stepSize=size)
+        else:
+            n = max(m, math.ceil(dist / 5))
+            got = vf.followFrom(Vector(*start), dist)
+        p = np.array(start, dtype=float)
+        for _ in range(n):
+            p = p + fieldfn(p).getRotation().apply(np.array([0, dist / n, 0]))
+        if not all(_close(a, b, 1e-6) for a, b in zip(got, p)):
+            return f"followFrom({start}, {dist}) with {mode} (minSteps {m}): end point {got}, forward Euler with {n} equal steps (none longer than the step size) gives {list(p)}"
+    return None
+
+
+def replay_on(inputs, clause):
+    """`on` a horizontal plane / a vector, specifying and modifying; the base of the object must end up ct/2 above the surface."""
+    from scenic.core.vectors import Vector
+
+    case, how = (inputs.get("case", "region/specifying").split("/") + ["specifying"])[:2]
+    ct = _clamp(inputs.get("new.contactTolerance", 0.02), 0, 1)
+    if case == "vector":
+        t = _f3(inputs, "target", [1, 2, 3])
+        scene = _scenic_scene(f"ego = new Object on {_tup(t)}, with contactTolerance {ct}, with height 2, with requireVisible False\n")
+        o = scene.objects[0]
+        want = t[2] + ct / 2 + 1.0
+        if not _close(o.position.z, want, 1e-6) or not _close(o.position.x, t[0]) or not _close(o.position.y, t[1]):
+            return f"`new Object on {t}` (height 2, contactTolerance {ct}): position {o.position}, expected ({t[0]}, {t[1]}, {want})"
+        return None
+    z0 = 3.0
+    decl = f"floor = new Object at (0, 0, {z0 / 2}), with width 20, with length 20, with height {z0}, with requireVisible False\nego = floor\n"
+    at = "at (1, 2, 9), " if how == "modifying" else ""
+    scene = _scenic_scene(decl + f"box = new Object {at}on floor, with contactTolerance {ct}, with height 2, with requireVisible False\n")
+    o = scene.objects[1]
+    if not _close(o.position.z, z0 + ct / 2 + 1.0, 1e-6):
+        return f"`new Object {at}on floor` (floor at z = {z0}, height 2, contactTolerance {ct}): z = {o.position.z}, expected {z0 + ct / 2 + 1.0}"
+    if how == "modifying" and not (_close(o.position.x, 1) and _close(o.position.y, 2)):
+        return f"modifying `on floor` moved the object sideways: {o.position}"
+    return None
